@@ -1,0 +1,13 @@
+//go:build verif
+
+package gc
+
+import "github.com/thought-machine/please/src/core"
+
+// This file only exports unexported things for the /verif conformance harness.
+// It is compiled with -tags verif only.
+
+// VerifTargetsToRemove calls targetsToRemove: the labels gc proposes to remove and the source files it proposes to delete.
+func VerifTargetsToRemove(graph *core.BuildGraph, filter, targets, targetsToKeep []core.BuildLabel, keepLabels []string, includeTests bool) (core.BuildLabels, []string) {
+	return targetsToRemove(graph, filter, targets, targetsToKeep, keepLabels, includeTests)
+}
